@@ -232,7 +232,14 @@ def ob_ineq(typ, sys, m, vname):
         PP = P.calc_proj_ineq_constraint()
         out.append(Eq("idempotent", PP.to_stacked_vector(), px))
         return out
-    return FnOb(w_inputs(k, dd), run, assume=lambda I: w_assume(I, k, dd), max_paths=64,
+    # concrete spectra with repeated eigenvalues, tried when a model of a degenerate path is replayed (cf. C18: whether a general
+    # eigen-solver returns a non-orthogonal basis depends on the data)
+    def tie_variant(vals):
+        return {f"w{j}_{i}": vals[i % len(vals)] if i < dd else 0.0 for j in range(k) for i in range(dd)}
+    variants = [{}]
+    for pat in ([-0.3] + [0.7] * (dd - 1), [-1.0] * (dd - 2) + [0.5, 0.5], [0.3] * (dd - 1) + [0.9]):
+        variants.append({f"w{j}_{i}": float(pat[i]) for j in range(k) for i in range(dd)})
+    return FnOb(w_inputs(k, dd), run, assume=lambda I: w_assume(I, k, dd), max_paths=64, replay_variants=variants,
                 stubs=["np.linalg.eigh: spectral parametrisation, frames derived from " + vname],
                 outside=["LAPACK's eigenvector choice for degenerate spectra (any orthonormal choice gives the same projector)",
                          "IEEE rounding of the imaginary-part residue against eps_truncate_imaginary_part at |x|~1e3"])
